@@ -553,23 +553,18 @@ impl<K: CacheKey + 'static> AsyncCache<K> for MemoryCache<K> {
     }
 
     async fn clear(&self) -> CacheResult<()> {
-        // Remove entry by entry and account for exactly what was removed: resetting
-        // the counters to zero after a bulk clear() loses the increments of puts that
-        // run concurrently, leaving size() and the usage figure wrong forever
-        let keys: Vec<K> = self
-            .storage
-            .iter()
-            .map(|entry| entry.key().clone())
-            .collect();
+        // Remove everything in one pass over the map and account for exactly what was
+        // removed: storing zero into the counters after a bulk clear() loses the
+        // increments of puts that run concurrently, leaving size() and the usage
+        // figure wrong forever
+        self.storage.retain(|_, entry| {
+            self.entry_count.fetch_sub(1, Ordering::Relaxed);
+            self.memory_usage
+                .fetch_sub(entry.size_bytes as u64, Ordering::Relaxed);
+            false
+        });
         #[cfg(feature = "verif-hooks")]
         crate::verif_hooks::sched_point("mem.clear.after_clear");
-        for key in keys {
-            if let Some((_, entry)) = self.storage.remove(&key) {
-                self.entry_count.fetch_sub(1, Ordering::Relaxed);
-                self.memory_usage
-                    .fetch_sub(entry.size_bytes as u64, Ordering::Relaxed);
-            }
-        }
         self.metrics.reset();
         Ok(())
     }
